@@ -32,22 +32,22 @@ def _field_of_recv(fn, c):
 def C11_1(ctx, facts):
     import panics
     import patable
+    # who touches the set's queue of unstarted candidates: EyeballSet::push / Extend (appending: decided by the candidate-loop
+    # table, which reads the queue off at the await of the set) and process_all (decided by the trace table); nobody else
     n = 0
-    in_pa = 0
     for g in facts.fns.values():
         if not g.nkey.startswith(("happy_eyeballs", "<happy_eyeballs")):
             continue
+        chain = panics.owner_chain(g)
+        owner_ok = any(nm in ("happy_eyeballs::EyeballSet::process_all", "happy_eyeballs::EyeballSet::push", "happy_eyeballs::EyeballSet::new") or nm.startswith("<happy_eyeballs::EyeballSet as std::iter::Extend") for nm in chain)
         for c in g.calls():
             tys = c.t.get("argtys") or [""]
-            if not tys[0].startswith("&mut std::collections::VecDeque<") or "queue" not in _field_of_recv(g, c):
+            if not re.search(r"^&mut (std::collections::VecDeque|std::vec::Vec|alloc::vec::Vec)<F", tys[0]) or "queue" not in _field_of_recv(g, c):
                 continue
             n += 1
             m = norm(c.name).split("::")[-1]
-            if any(nm_ == "happy_eyeballs::EyeballSet::process_all" for nm_ in panics.owner_chain(g)):
-                in_pa += 1
-                continue   # process_all and its private helpers: the order of starts is decided by the trace table below
-            ctx.check(m in ("push_back", "extend", "pop_front"), "EyeballSet.queue|%s|%s" % (g.nkey.split("::")[-1] if "{closure" not in g.nkey else g.nkey.split("::")[-2], m),
-                      "queue accessed FIFO (%s)" % m, "queue mutated through %s (breaks start order)" % norm(c.name), c.where())
+            ctx.check(owner_ok, "EyeballSet.queue|%s|%s" % (g.nkey.split("::")[-1] if "{closure" not in g.nkey else g.nkey.split("::")[-2], m),
+                      "the queue is touched by push / extend / process_all only (%s)" % m, "queue mutated through %s in %s" % (norm(c.name), g.nkey), c.where())
     ctx.floor("EyeballSet.queue|mutators", n, 3, "mutating accesses to EyeballSet.queue")
     # candidates leave the queue in process_all only, and there in FIFO order: trace table (starts in queue order)
     patable.table(ctx, facts)
@@ -72,8 +72,6 @@ def C11_1(ctx, facts):
     # before the set is awaited - whatever the loop looks like
     import candloop
     candloop.table(ctx, facts)
-    es = facts.unit(facts.fn("happy_eyeballs::EyeballSet::push"))
-    ctx.check(any(c.matches(r"VecDeque.*::push_back$") for c in es.calls()), "EyeballSet::push|back", "EyeballSet::push appends at the back", "EyeballSet::push does not push_back", es.where())
 
 
 def C11_2_3_4(ctx, facts):
@@ -112,44 +110,10 @@ def C11_2_3_4(ctx, facts):
 
 
 def C11_6(ctx, facts):
-    f = facts.unit(facts.fn("client::conn::transport::tcp::TcpConnecting::connect::{closure#0}"), expand=True)
-    new = f.calls("happy_eyeballs::EyeballSet::new")
-    ctx.floor("TcpConnecting::connect|EyeballSet::new", len(new), 1, "EyeballSet::new")
-    divs = [x for x in f.calls() if x.matches(r"Duration as .*Div.*::div$|ops::Div.*::div$")]
-    ctx.floor("TcpConnecting::connect|delay-division", len(divs), 1, "timeout / number of addresses")
-    db = {x.bb for x in divs}
-    for c in new:
-        r0, r1, r2 = (f.roots(a) for a in c.args[:3])
-        ok0 = any("happy_eyeballs_timeout" in r.desc for r in r0 if r.kind in ("arg", "upvar")) and any(r.kind == "call" and r.site.bb in db for r in r0)
-        ok1 = any("happy_eyeballs_timeout" in r.desc for r in r1 if r.kind in ("arg", "upvar")) and not any(r.kind == "call" and r.site.bb in db for r in r1)
-        ok2 = any("happy_eyeballs_concurrency" in r.desc for r in r2 if r.kind in ("arg", "upvar"))
-        ctx.check(ok0 and ok1 and ok2, "TcpConnecting::connect|new-args", "EyeballSet::new(delay = timeout / n, overall = happy_eyeballs_timeout (undivided), happy_eyeballs_concurrency)",
-                  "EyeballSet::new argument roots: %s / %s / %s" % (sorted(map(repr, sig(r0)))[:4], sorted(map(repr, sig(r1)))[:4], sorted(map(repr, sig(r2)))[:4]), c.where())
-
-    def nonempty(lab):
-        if lab.kind == "bool" and lab.value is not None and lab.cond.kind == "call" and lab.cond.site.is_("client::conn::dns::SocketAddrs::is_empty"):
-            return lab.value is False
-        if lab.kind == "int" and lab.value == "else":
-            rr = f.roots(lab.operand)
-            if any(r.kind == "call" and r.site.is_("client::conn::dns::SocketAddrs::len") for r in rr):
-                t = f.term(lab.sw)
-                return any(v == "0" for v, _ in t["ts"])
-        return False
-
-    for c in divs:
-        g, w = f.guarded(c.bb, nonempty)
-        ctx.check(g, "TcpConnecting::connect|division-guarded", "timeout / addresses.len() is evaluated only when the address list is not empty", "division reachable with an empty address list", c.where(), f.path_desc(w))
-        rr = f.roots(c.args[1])
-        okd = any(r.kind == "call" and r.site.is_("client::conn::dns::SocketAddrs::len") for r in rr)
-        r_n = f.roots(c.args[0])
-        okn = any("happy_eyeballs_timeout" in r.desc for r in r_n if r.kind in ("arg", "upvar"))
-        ctx.check(okd and okn, "TcpConnecting::connect|delay-is-timeout-over-len", "delay = happy_eyeballs_timeout / number of addresses", "delay is not happy_eyeballs_timeout / addresses.len()", c.where())
-    en = facts.unit(facts.fn("happy_eyeballs::EyeballSet::new"))
-    for (b, i, s) in en.aggregates("happy_eyeballs::EyeballSet"):
-        r = s["r"]
-        ops = dict(zip(r["fields"], r["ops"]))
-        ok = all(any(x.kind == "arg" and x.desc == nm for x in en.roots(ops[nm])) for nm in ("delay", "timeout", "initial_concurrency"))
-        ctx.check(ok, "EyeballSet::new|fields", "EyeballSet::new stores delay / timeout / initial_concurrency in the fields of the same name", "EyeballSet::new mixes its parameters", en.where(b))
+    """The pacing parameters of the attempt set: decision table (candloop.delay_table) over overall timeout x number of
+    addresses, read off the set at the moment it is awaited (EyeballSet::new and the TcpConnecting constructor spliced in)."""
+    import candloop
+    candloop.delay_table(ctx, facts)
 
 
 RULES = [
